@@ -76,6 +76,17 @@ ConsumeAtMost(n) ==
                            Proj2(k, size, filled, offset + k) \o <<-7>> \o Take(Unread, k))
           ELSE UNCHANGED vars /\ ev' = Ev("consume_at_most", <<n>>, Proj(-1) \o <<-7>>)
 
+(* lengths just below SIZE_MAX (SIZE_MAX - k): there is never that much space or content, and the size arithmetic must not wrap *)
+AddHuge(k) == valid /\ UNCHANGED vars /\ ev' = Ev("addhuge", <<k>>, Proj(-1))
+ConsumeHuge(k) == valid /\ UNCHANGED vars /\ ev' = Ev("consumehuge", <<k>>, Proj(-1) \o <<-7>>)
+ConsumeAtMostHuge(k) ==
+    /\ valid
+    /\ LET rest == Used - offset
+       IN IF rest > 0
+          THEN /\ offset' = Used /\ UNCHANGED <<valid, size, filled>>
+               /\ ev' = Ev("camhuge", <<k>>, Proj2(rest, size, filled, Used) \o <<-7>> \o Unread)
+          ELSE UNCHANGED vars /\ ev' = Ev("camhuge", <<k>>, Proj(-1) \o <<-7>>)
+
 Rewind == IF ~valid
           THEN UNCHANGED vars /\ ev' = Ev("rewind", <<>>, Proj(-1))
           ELSE /\ filled' = Unread /\ offset' = 0 /\ UNCHANGED <<valid, size>>
@@ -99,6 +110,7 @@ Next ==
     \/ Null
     \/ \E d \in SeqsUpTo(Alphabet, size + 1) : Add(d)
     \/ \E n \in 0..size + 1 : Consume(n) \/ ConsumeAtMost(n)
+    \/ \E k \in 0..size + 1 : AddHuge(k) \/ ConsumeHuge(k) \/ ConsumeAtMostHuge(k)
     \/ Rewind \/ Clear \/ Reset \/ Repeat \/ Avail \/ Rest
 
 Spec == Init /\ [][Next]_<<vars, ev>>
@@ -159,6 +171,7 @@ AtMostReturnsWhatIsThere ==
     [][ev'.op = "consume_at_most" =>
           /\ (Refused(ev') <=> Used = offset)
           /\ (~Refused(ev') => rc(ev') = MinOf(ev'.a[1], Used - offset) /\ Len(Returned(ev')) = rc(ev'))]_<<vars, ev>>
+HugeRefused == [][ev'.op \in {"addhuge", "consumehuge"} => Refused(ev')]_<<vars, ev>>
 RewindKeepsUnread ==
     [][ev'.op = "rewind" /\ ~Refused(ev') =>
           filled' = Unread /\ offset' = 0 /\ size' - Len(filled') = size - Len(Unread)]_<<vars, ev>>
@@ -181,6 +194,9 @@ RefinesAbs ==
          [] ev'.op = "add" -> Abs!Add(ev'.a[1])
          [] ev'.op = "consume" -> Abs!Consume(ev'.a[1])
          [] ev'.op = "consume_at_most" -> Abs!ConsumeAtMost(ev'.a[1])
+         [] ev'.op = "addhuge" -> Abs!Add(1000000 - ev'.a[1])                   \* (the abstraction is over Int: any length beyond every capacity)
+         [] ev'.op = "consumehuge" -> Abs!Consume(1000000 - ev'.a[1])
+         [] ev'.op = "camhuge" -> Abs!ConsumeAtMost(1000000 - ev'.a[1])
          [] ev'.op = "rewind" -> (IF Refused(ev') THEN UNCHANGED vars ELSE Abs!Rewind)
          [] ev'.op \in {"clear", "reset"} -> Abs!Empty
          [] ev'.op = "repeat" -> Abs!Repeat
